@@ -247,7 +247,8 @@ func layout(tag string, lay int) string {
 type Case struct {
 	Kind      string   `json:"kind"`
 	Ctx       string   `json:"ctx"`
-	Pre       vk.Text  `json:"pre"`        // everything before the failing tag
+	Pre       vk.Text  `json:"pre"`        // everything before the failing construct
+	Lead      vk.Text  `json:"lead"`       // opening tags of the same construct when the failing tag continues one (else-if, else)
 	Tag       vk.Text  `json:"tag"`        // the failing tag as laid out
 	Post      vk.Text  `json:"post"`       // everything after it
 	ToEOF     bool     `json:"to_eof"`     // the tag is unterminated and extends to the end of the input
@@ -256,7 +257,7 @@ type Case struct {
 	Classes   []string `json:"classes,omitempty"`
 }
 
-func (c Case) src() string { return string(c.Pre) + string(c.Tag) + string(c.Post) }
+func (c Case) src() string { return string(c.Pre) + string(c.Lead) + string(c.Tag) + string(c.Post) }
 
 func data() map[string]interface{} {
 	return map[string]interface{}{
@@ -307,7 +308,10 @@ func check(r *vk.Run, c Case) *vk.Fail {
 	defer r.Watch("line", c)()
 	src := c.src()
 	first := 1 + strings.Count(string(c.Pre), "\n")
-	last := first + strings.Count(string(c.Tag), "\n")
+	// When the failing tag continues a construct opened by earlier tags (Lead), the statement does not say whether
+	// "the tag containing the failing statement" is the tag where the if-statement begins or the continuation tag
+	// holding the faulty part: any line from the one to the other is accepted.
+	last := first + strings.Count(string(c.Lead)+string(c.Tag), "\n")
 	if c.ToEOF {
 		last = 1 + strings.Count(src, "\n")
 	}
@@ -316,7 +320,7 @@ func check(r *vk.Run, c Case) *vk.Fail {
 		if len(c.Classes) > 0 {
 			cl = c.Classes[0]
 		}
-		return &vk.Fail{Kind: "line", Class: cl, Case: c, Msg: fmt.Sprintf("template %q (failing tag %q on line %d..%d): ", src, string(c.Tag), first, last) + fmt.Sprintf(f, a...)}
+		return &vk.Fail{Kind: "line", Class: cl, Case: c, Msg: fmt.Sprintf("template %q (failing tag %q on line %d..%d): ", src, string(c.Lead)+string(c.Tag), first, last) + fmt.Sprintf(f, a...)}
 	}
 	nt := ""
 	if first > 1 {
@@ -404,7 +408,7 @@ func build(cl cell) (c Case, classes []string, ok bool) {
 		return c, nil, false
 	}
 	post := k.tail + gaps[cl.gap] + x.post + suffixes[cl.suffix] + cl.extra
-	c = Case{Kind: k.name, Ctx: x.name, Pre: vk.Text(cl.prefix + k.setup + x.pre + k.lead), Tag: vk.Text(tag), Post: vk.Text(post), ToEOF: k.toEOF}
+	c = Case{Kind: k.name, Ctx: x.name, Pre: vk.Text(cl.prefix + k.setup + x.pre), Lead: vk.Text(k.lead), Tag: vk.Text(tag), Post: vk.Text(post), ToEOF: k.toEOF}
 	if k.number {
 		classes = append(classes, "parse-number-literal-message")
 	}
